@@ -3339,7 +3339,15 @@ class TLSConnection(TLSRecordLayer):
                                             signature_scheme, None, None, None,
                                             prf_name, b'client')
 
-            public_key = client_cert_chain.getEndEntityPublicKey()
+            # the key must fit the size and curve limits of the settings
+            for result in self._check_certchain_with_settings(
+                    client_cert_chain,
+                    settings):
+                if result in (0, 1):
+                    yield result
+                else:
+                    break
+            public_key = result
 
             if signature_scheme in (SignatureScheme.ed25519,
                     SignatureScheme.ed448, SignatureScheme.mldsa44,
